@@ -460,6 +460,8 @@ class CallGraph:
                         n.targets if isinstance(n, (ast.Assign, ast.Delete)) else [n.target]
                     )
                     for t in targets:
+                        if isinstance(t, ast.Name):
+                            continue  # binding a local name is not a mutation
                         base = t
                         kind = "assign"
                         if isinstance(t, ast.Subscript):
@@ -476,8 +478,33 @@ class CallGraph:
             self.fs_write_sites[q] = fs
             self.field_mut_sites[q] = muts
 
-    def _field_owner(self, e, fi: FuncInfo) -> Optional[Tuple[str, str]]:
+    def _field_owner(self, e, fi: FuncInfo, _depth=0) -> Optional[Tuple[str, str]]:
         """expr `X.f` where X has a repository class type -> (class qual, field)."""
+        if isinstance(e, ast.Name) and _depth < 3:
+            # local alias of (an element of) a field: x = self.f[k] / self.f.get(k) / self.f
+            found = None
+            for n in walk_body(fi.node):
+                if isinstance(n, ast.Assign) and any(isinstance(t, ast.Name) and t.id == e.id for t in n.targets):
+                    v = n.value
+                    while isinstance(v, (ast.Subscript, ast.Call)):
+                        if isinstance(v, ast.Call):
+                            if isinstance(v.func, ast.Attribute) and v.func.attr in ("get", "setdefault"):
+                                v = v.func.value
+                            else:
+                                v = None
+                                break
+                        else:
+                            v = v.value
+                    if v is not None and not (isinstance(v, ast.Name) and v.id == e.id):
+                        o = self._field_owner(v, fi, _depth + 1)
+                        if o:
+                            found = (o[0], o[1] + "[]" if not o[1].endswith("[]") else o[1])
+            return found
+        if isinstance(e, ast.Subscript):
+            o = self._field_owner(e.value, fi, _depth + 1)
+            if o:
+                return (o[0], o[1] + "[]" if not o[1].endswith("[]") else o[1])
+            return None
         if not isinstance(e, ast.Attribute):
             return None
         tt = self.type_text(e.value, fi)
